@@ -235,6 +235,25 @@ def rule_a(ctx: Context, R: Reporter):
             R.check("C12.a", "the ESS in the guard is that of the beta=1 weights over the whole history", ok_w, g, call,
                     msg=f"{g.short}: ESS argument `{unparse(call)[:70]}` is not derived from {wfn.name}(1.0)", key="ess-of-posterior-weights")
     R.analysed["C12.a:atoms"] = n_atoms
+    # the n_total in the guard is the caller's argument: no call that (transitively) assigns self.n_total runs
+    # between `self.n_total = <parameter>` and the loop
+    setters = [n for n in cfg.stmt_nodes() if n.kind == "stmt" and isinstance(n.stmt, ast.Assign) and any(isinstance(t, ast.Attribute) and t.attr == "n_total" and isinstance(t.value, ast.Name) and t.value.id == "self" for t in n.stmt.targets)
+               and any(isinstance(x, ast.Name) and x.id in fi.params for x in ast.walk(n.stmt.value))]
+    clobber_funcs = set()
+    for f2 in ctx.prog.functions.values():
+        if f2 is fi or f2.cls is not fi.cls:
+            continue
+        if any(isinstance(x, ast.Assign) and any(isinstance(t, ast.Attribute) and t.attr == "n_total" and isinstance(t.value, ast.Name) and t.value.id == "self" for t in x.targets) for x in walk_no_nested(f2.node)):
+            clobber_funcs.add(f2.qualname)
+    from ..util import nodes_calling
+
+    clob = [n for (n, c, h) in nodes_calling(ctx.cg, fi, lambda g: g.qualname in clobber_funcs)]
+    R.check("C12.a", "run() stores the caller's n_total", bool(setters), fi, setters[0].stmt if setters else fi.node, msg=f"{fi.short}: self.n_total is never set from the n_total argument", key="n_total-set")
+    for cn in clob:
+        ok = not cfg.reaches(cn.id, loop.id, blocked=[s.id for s in setters])
+        R.check("C12.a", "the caller's n_total is stored after anything that can overwrite it (checkpoint load)", ok, fi, cn.stmt,
+                msg=f"{fi.short}: `{unparse(cn.ast)[:60]}` (which assigns self.n_total, e.g. from a checkpoint) can run after `self.n_total = n_total`: a resumed run terminates against the "
+                    f"checkpoint's n_total instead of the requested one, so ESS >= n_total does not hold on return", key="n_total-clobbered")
     # nothing after the loop writes beta / commits
     after = {n.id for n in cfg.stmt_nodes() if cfg.reaches(loop.id, n.id) and n.id not in body}
     bad = []
